@@ -5,7 +5,19 @@ from hypothesis import strategies as st
 
 from harness import common, gen, monitors
 from harness.common import viol
-from harness.programs import run_program
+from harness.programs import run_program as _run_program
+
+
+class _Stuck(Exception):
+    pass
+
+
+def run_program(prog):
+    # programs take milliseconds; one that does not return within 20 s of wall clock is looping inside the code under test
+    try:
+        return _run_program(prog, timeout=20)
+    except common.CaseTimeout:
+        raise _Stuck()
 
 PID = 'C14'
 LEVEL = 'exploration'
@@ -337,6 +349,14 @@ def judge_overtake(case):
 
 
 def prop(case):
+    try:
+        return _prop(case)
+    except _Stuck:
+        info['nt'], info['classes'] = True, ['stuck']
+        return [viol('lease_handling_does_not_terminate', 'C14:stuck')]
+
+
+def _prop(case):
     if 'overtake' in case:
         vs, nt, classes = judge_overtake(case)
         info['nt'], info['classes'] = nt, classes
